@@ -113,7 +113,15 @@ CHECKS['C12'] = dict(
          'factor are numeric.',
     note=ASSUME + '; dispatch worlds excluded (documented coupling of Fajr/Isha: C08-C10)',
     technique='dependence (non-interference) analysis + polynomial identity on reconstructed terms')
-for _p in ['C09']:
+CHECKS['C09'] = dict(
+    text='Decides on the search loop: radius >= 78 days for every request date (interval of the loop bound), distance starts at 0, the '
+         'earlier date is probed before the later one at each distance and a hit ends the search (per-path probe traces), candidates are '
+         'computed at the request\'s coordinates with date and Julian Day stepped together, after a hit Fajr and Isha are reported, the '
+         'values written are the candidate\'s same-key entries (all six / only the invalid Fajr-Isha), flagged. Equality to the second is '
+         'numeric: not decided.',
+    note=ASSUME + '; |lat| <= 64 and angles <= 20 deg => twilight-free season within +/-78 days of the solstice',
+    technique='interval domain on the loop bound + per-path probe-order traces + skeleton worlds with same-key value identity')
+for _p in []:
     NA[_p] = 'check not yet registered in this commit (design in DESIGN.md §4; being built)'
 NA['C17'] = 'calendar equality over 3.65 M dates is arithmetic over runtime values (float floor, data-dependent search loops): no clause is visible in the shape of the code'
 NA['C20'] = 'metamorphic relation between numeric outputs through the whole ephemeris; the only structural fact behind it is not a necessary condition'
